@@ -63,9 +63,11 @@ def sub(n):
         yield w2
 
 def gen2(n):
+    tot = 0
     for j in range(n):
         w = g(j * 10)
-        yield w
+        # a yield inside an augmented assignment (its target is usually not instrumented)
+        tot += (yield w) or 0
     # delegation: the values of sub() travel out through gen2's `yield from`
     yield from sub(2)
 
